@@ -617,6 +617,40 @@ func (s *Schema) hasDateKey(t Type, seen map[string]bool) bool {
 	return false
 }
 
+// HasUnionBelow reports whether a value of type t can hold a union below its top level.
+func (s *Schema) HasUnionBelow(t Type) bool { return s.hasUnionBelow(t, true, map[string]bool{}) }
+
+func (s *Schema) hasUnionBelow(t Type, top bool, seen map[string]bool) bool {
+	switch {
+	case t.Array != nil:
+		return s.hasUnionBelow(*t.Array, false, seen)
+	case t.MapV != nil:
+		return s.hasUnionBelow(*t.MapV, false, seen)
+	case t.Prim != "":
+		return false
+	}
+	d := s.Lookup(t.Named)
+	if d == nil || d.Kind == KEnum || seen[d.Name] {
+		return false
+	}
+	if d.Kind == KUnion && !top {
+		return true
+	}
+	seen[d.Name] = true
+	defer delete(seen, d.Name)
+	for _, f := range d.Fields {
+		if s.hasUnionBelow(f.Type, false, seen) {
+			return true
+		}
+	}
+	for _, b := range d.Branches {
+		if s.hasUnionBelow(Type{Named: b.Def.Name}, false, seen) {
+			return true
+		}
+	}
+	return false
+}
+
 // Clone deep-copies a schema.
 func (s *Schema) Clone() *Schema {
 	c := &Schema{Name: s.Name, Combined: s.Combined, DeclSeed: s.DeclSeed, Consts: append([]Const(nil), s.Consts...)}
